@@ -240,7 +240,10 @@ class DeprecatedOptions:
         def _opt_defined(opt):
             if opt.orig_type == BOOL and opt.str_value != "n":
                 return True
-            elif opt.orig_type in (INT, STRING, HEX, FLOAT) and opt.str_value != "":
+            elif opt.orig_type == STRING:
+                # An empty string is a value like any other: the header defines the option as ""
+                return bool(config._header_string(opt))
+            elif opt.orig_type in (INT, HEX, FLOAT) and opt.str_value != "":
                 return True
             return False
 
